@@ -136,7 +136,14 @@ var two63 = new(big.Int).Lsh(big.NewInt(1), 63)
 // SmallOrBig draws a non-negative number from a boundary-biased distribution.
 func SmallOrBig(r *rng.R, pBig int) *big.Int {
 	if pBig > 0 && r.Intn(100) < pBig {
-		switch r.Intn(6) {
+		switch r.Intn(8) {
+		case 6: // inside the window where signed and unsigned 64-bit readings differ
+			return new(big.Int).Add(two63, new(big.Int).SetUint64(r.U64()>>1))
+		case 7: // exact multiples of 2^64 and 2^32
+			if r.Bool() {
+				return new(big.Int).Mul(two64, big.NewInt(int64(1+r.Intn(3))))
+			}
+			return new(big.Int).Lsh(big.NewInt(int64(1+r.Intn(3))), 32)
 		case 0:
 			return new(big.Int).Add(two64, big.NewInt(int64(r.Intn(3)-1)))
 		case 1:
@@ -189,7 +196,12 @@ func (g *lgen) accountExpr(name string) Expr {
 
 func (g *lgen) assetExpr(asset string) Expr {
 	if g.pct(g.cfg.PVarAcct / 2) {
-		return g.declare("asset", g.fresh("ast"), asset)
+		if name, ok := g.acctVars["asset:"+asset]; ok && g.r.Chance(2, 3) {
+			return &Var{Name: name}
+		}
+		name := g.fresh("ast")
+		g.acctVars["asset:"+asset] = name
+		return g.declare("asset", name, asset)
 	}
 	return &Asset{Name: asset}
 }
